@@ -129,35 +129,46 @@ func nativeRun(propID string, pkgDir string, pkgName string, harnessNames []stri
 	if err != nil {
 		return nil, fmt.Errorf("native build failed: %v\n%s", err, out)
 	}
-	cb, _ := json.Marshal(cases)
-	casesFile := filepath.Join(scratch, "cases.json")
-	os.WriteFile(casesFile, cb, 0o644)
-	outFile := filepath.Join(scratch, "out.jsonl")
-	run := exec.Command(bin, "-test.run", "^TestVerifReplay$", "-test.timeout", "600s")
-	run.Dir = scratch
-	tier := "quick"
-	if thorough {
-		tier = "thorough"
-	}
-	run.Env = append(os.Environ(), "VERIF_CASES="+casesFile, "VERIF_OUT="+outFile, "VERIF_TIER="+tier)
-	rout, rerr := run.CombinedOutput()
-	f, err := os.Open(outFile)
-	if err != nil {
-		return nil, fmt.Errorf("native run produced no output: %v %v\n%s", err, rerr, tail(string(rout), 2000))
-	}
-	defer f.Close()
 	var res []caseResult
-	sc := bufio.NewScanner(f)
-	sc.Buffer(make([]byte, 1<<20), 1<<24)
-	for sc.Scan() {
-		var r caseResult
-		if json.Unmarshal(sc.Bytes(), &r) == nil {
-			res = append(res, r)
+	startIdx := 0
+	for startIdx < len(cases) {
+		cb, _ := json.Marshal(cases[startIdx:])
+		casesFile := filepath.Join(scratch, "cases.json")
+		os.WriteFile(casesFile, cb, 0o644)
+		outFile := filepath.Join(scratch, "out.jsonl")
+		os.Remove(outFile)
+		run := exec.Command("/bin/sh", "-c", "ulimit -v 12582912; exec "+bin+" -test.run '^TestVerifReplay$' -test.timeout 900s")
+		run.Dir = scratch
+		tier := "quick"
+		if thorough {
+			tier = "thorough"
 		}
-	}
-	if len(res) < len(cases) {
-		// the process died (e.g. os.Exit / fatal error) while running case len(res)
-		res = append(res, caseResult{Idx: len(res), Harness: cases[len(res)].Harness, Outcome: "panic", Label: "process died: " + tail(string(rout), 600)})
+		run.Env = append(os.Environ(), "VERIF_CASES="+casesFile, "VERIF_OUT="+outFile, "VERIF_TIER="+tier)
+		rout, rerr := run.CombinedOutput()
+		f, err := os.Open(outFile)
+		if err != nil {
+			return nil, fmt.Errorf("native run produced no output: %v %v\n%s", err, rerr, tail(string(rout), 2000))
+		}
+		n := 0
+		sc := bufio.NewScanner(f)
+		sc.Buffer(make([]byte, 1<<20), 1<<24)
+		for sc.Scan() {
+			var r caseResult
+			if json.Unmarshal(sc.Bytes(), &r) == nil {
+				r.Idx += startIdx
+				res = append(res, r)
+				n++
+			}
+		}
+		f.Close()
+		if startIdx+n < len(cases) {
+			// the process died (fatal error, os.Exit, out of memory) while running the next case
+			k := startIdx + n
+			res = append(res, caseResult{Idx: k, Harness: cases[k].Harness, Outcome: "panic", Label: "process died: " + tail(string(rout), 600)})
+			startIdx = k + 1
+		} else {
+			break
+		}
 	}
 	return res, nil
 }
@@ -271,6 +282,8 @@ func finish(propID, tier string, cfg *CheckConfig, ld *Loaded, results []*Harnes
 				ok := false
 				if strings.HasPrefix(rf.v.Label, "panic: ") {
 					ok = nr.Outcome == "panic"
+				} else if rf.v.Label == "allocation beyond limit" {
+					ok = nr.Outcome == "allocfail" || nr.Outcome == "panic"
 				} else {
 					ok = nr.Outcome == "checkfail" && nr.Label == rf.v.Label
 					// a violated check may natively show up as a panic or a different failed check: still a real failure of the harness
